@@ -51,8 +51,8 @@ using network::BufferedFd;
 using network::TcpConnection;
 
 // ---------------------------------------------------------------- the scripted kernel
-struct WAns { char kind; size_t k; };            // 'a' accept k, 'e' EAGAIN, 'x' error
-struct RAns { char kind; size_t k; };            // 'c' chunk k, 'f' fill+k, 'e' EAGAIN, 'x' error
+struct WAns { char kind; size_t k; char site; int err; };   // 'a' accept k, 'e' EAGAIN, 'x' errno err; site 0 = either write site, 's' = send(), 'c' = write-ready callback
+struct RAns { char kind; size_t k; };            // 'c' chunk k, 'f' fill+k, 'e' EAGAIN, 'i' EINTR, 'x' error
 static int g_fd = -1, g_peer = -1;
 static std::deque<WAns> g_wq;
 static std::deque<RAns> g_rq;
@@ -62,6 +62,8 @@ static uint32_t g_mask = 0;
 static bool g_filter = false;
 static std::string g_wire_new;
 static std::map<std::string, uint64_t> g_faults;
+static bool g_in_send = false;       // a send() call of the object under test is on the stack: its write(2) is the one of the send site
+                                     // (send() calls no user callback, so every other write(2) on the descriptor is the write-ready callback's)
 static int g_nevents = 0;            // fd events delivered by the filtered epoll_wait (quiescence detection)
 // the kernel queue as the peer application sees it: bytes that arrived at the peer socket and were not yet
 // read by the peer application (`pread`), and how the transport ended (first terminal result of read(2))
@@ -95,11 +97,13 @@ static void drain_peer() {
 
 extern "C" ssize_t write(int fd, const void *p, size_t n) {
     if (fd < 0 || fd != g_fd) return real_write()(fd, p, n);
-    WAns a;
-    if (!g_wq.empty()) { a = g_wq.front(); g_wq.pop_front(); }
-    else { a.kind = 'a'; a.k = (g_wmax == 0 || g_wmax > n) ? n : g_wmax; }
+    WAns a; a.kind = 'a'; a.k = (g_wmax == 0 || g_wmax > n) ? n : g_wmax; a.site = 0; a.err = 0;
+    // the first queued answer that is for this call site (or for either); answers for the other site are passed by
+    char site = g_in_send ? 's' : 'c';
+    for (auto it = g_wq.begin(); it != g_wq.end(); ++it)
+        if (it->site == 0 || it->site == site) { a = *it; g_wq.erase(it); break; }
     if (a.kind == 'e') { errno = EAGAIN; return -1; }
-    if (a.kind == 'x') { errno = EPIPE; return -1; }
+    if (a.kind == 'x') { errno = a.err; return -1; }
     size_t k = a.k < n ? a.k : n, done = 0;
     if (g_shut && k > 0) { g_refused = true; errno = EPIPE; return -1; }     // not an execution of the kernel: the case ends here
     while (done < k) {      // the kernel takes exactly k bytes: make room by letting the peer read
@@ -116,6 +120,7 @@ extern "C" ssize_t readv(int fd, const struct iovec *iov, int cnt) {
     RAns a; a.kind = 'n'; a.k = 0;
     if (!g_drain && !g_rq.empty()) { a = g_rq.front(); g_rq.pop_front(); }
     if (a.kind == 'e') { g_drain = false; errno = EAGAIN; return -1; }
+    if (a.kind == 'i') { g_drain = false; errno = EINTR; return -1; }
     if (a.kind == 'x') { g_drain = false; errno = ECONNRESET; return -1; }
     size_t limit = (size_t)-1;
     if (a.kind == 'c') limit = a.k;
@@ -129,6 +134,12 @@ extern "C" ssize_t readv(int fd, const struct iovec *iov, int cnt) {
     }
     ssize_t r = real_readv()(fd, v, m);
     if (r <= 0) g_drain = false; else g_pending -= (size_t)r;
+    // how the bytes of this read were split between the writable space and the 1 KiB spill buffer (not compared: the
+    // capacity is the buffer's business; read by the plugin's coverage count)
+    if (r > 0 && cnt == 2 && iov[0].iov_len > 0 && (size_t)r >= iov[0].iov_len && (size_t)r - iov[0].iov_len <= 1024) {
+        size_t sp = (size_t)r - iov[0].iov_len;
+        if (sp <= 1 || sp >= 1023) std::cout << "B spill=" << sp << "\n";
+    }
     return r;
 }
 
@@ -268,7 +279,9 @@ static bool api_send(const std::vector<uint8_t> &d) {
     uint8_t *blk = (uint8_t *)malloc(d.size() + off + (d.empty() && off == 0 ? 1 : 0));
     uint8_t *p = blk + off;
     if (!d.empty()) memcpy(p, d.data(), d.size());
+    g_in_send = true;
     bool r = g_conn ? g_c->send(p, d.size()) : g_b->send(p, d.size());
+    g_in_send = false;
     free(blk);
     return r;
 }
@@ -320,7 +333,7 @@ static void reset_case() {
     g_fdobj = util::Fd();        // last reference: closes the descriptor
     (void)fd;
     if (g_peer >= 0) { close(g_peer); g_peer = -1; }
-    g_wq.clear(); g_rq.clear(); g_wmax = g_rmax = g_pending = 0; g_drain = false;
+    g_wq.clear(); g_rq.clear(); g_wmax = g_rmax = g_pending = 0; g_drain = false; g_in_send = false;
     g_wire_new.clear(); g_ev.clear();
     g_stash.clear(); g_tr_end = g_app_end = 'o'; g_sys.clear(); g_shut = g_refused = g_closed = false;
     g_rcb = g_scb = g_zcb = g_recb = g_wecb = g_dcb = Script();
@@ -377,18 +390,24 @@ static bool parse_script(const std::string &w, Script &s) {
     return true;
 }
 
-static bool parse_wans(const std::string &w, WAns &a) {
+static bool parse_wans(const std::string &w0, WAns &a) {
     uint64_t k;
-    if (w == "ea") { a.kind = 'e'; a.k = 0; return true; }
-    if (w == "er") { a.kind = 'x'; a.k = 0; return true; }
+    std::string w = w0;
+    a.site = 0; a.err = 0; a.k = 0;
+    if (w.size() >= 2 && w[1] == ':' && (w[0] == 's' || w[0] == 'c')) { a.site = w[0]; w = w.substr(2); }
+    if (w == "ea") { a.kind = 'e'; return true; }
+    if (w == "er") { a.kind = 'x'; a.err = EPIPE; return true; }
+    if (w.size() >= 2 && w[0] == 'e' && vh::to_u64(w.substr(1), k)
+        && (k == EINTR || k == EIO || k == ENOMEM || k == ENOSPC || k == EPIPE || k == ECONNRESET || k == ENOBUFS)) { a.kind = 'x'; a.err = (int)k; return true; }
     if (w.size() >= 2 && w[0] == 'a' && vh::to_u64(w.substr(1), k)) { a.kind = 'a'; a.k = k; return true; }
     return false;
 }
 static bool parse_rans(const std::string &w, RAns &a) {
     uint64_t k;
     if (w == "ea") { a.kind = 'e'; a.k = 0; return true; }
+    if (w == "ei") { a.kind = 'i'; a.k = 0; return true; }
     if (w == "er") { a.kind = 'x'; a.k = 0; return true; }
-    if (w.size() >= 2 && w[0] == 'f' && vh::to_u64(w.substr(1), k) && k <= 2) { a.kind = 'f'; a.k = k; return true; }
+    if (w.size() >= 2 && w[0] == 'f' && vh::to_u64(w.substr(1), k) && k <= 1025) { a.kind = 'f'; a.k = k; return true; }
     if (w.size() >= 2 && w[0] == 'c' && vh::to_u64(w.substr(1), k) && k >= 1 && k <= 1024) { a.kind = 'c'; a.k = k; return true; }
     return false;
 }
@@ -803,12 +822,16 @@ static void sv_install() {
         add(sv_ev[tok_index(t)], 'R', b.readableBegin(), b.readableSize()); b.hasReadAll(); sv_run(sv_recv, t); g.touch(); }, 0);
     sv->setSendCompleteCallback([g](const TcpServer::ConnToken &t) { add(sv_ev[tok_index(t)], 'S'); sv_run(sv_sc, t); g.touch(); });
 }
-static void cl_install(int i) {
+// The script of a client callback is captured BY VALUE: a script change (`nccb`) is a call of the TcpClient setter, which has
+// to install the new callback on the live connection and keep it for the connections made after a reconnect.
+// which: -1 all, 0 connected, 1 disconnected, 2 receive, 3 send-complete
+static void cl_install(int i, int which = -1) {
     Guard g;
-    cl[i]->setConnectedCallback([i, g] { add(cl_ev[i], 'C'); cl_run(i, cl_conn[i]); g.touch(); });
-    cl[i]->setDisconnectedCallback([i, g] { add(cl_ev[i], 'D'); cl_run(i, cl_disc[i]); g.touch(); });
-    cl[i]->setReceiveCallback([i, g](Buffer &b) { add(cl_ev[i], 'R', b.readableBegin(), b.readableSize()); b.hasReadAll(); cl_run(i, cl_recv[i]); g.touch(); }, 0);
-    cl[i]->setSendCompleteCallback([i, g] { add(cl_ev[i], 'S'); cl_run(i, cl_sc[i]); g.touch(); });
+    NScript s_conn = cl_conn[i], s_disc = cl_disc[i], s_recv = cl_recv[i], s_sc = cl_sc[i];
+    if (which < 0 || which == 0) cl[i]->setConnectedCallback([i, g, s_conn] { add(cl_ev[i], 'C'); cl_run(i, s_conn); g.touch(); });
+    if (which < 0 || which == 1) cl[i]->setDisconnectedCallback([i, g, s_disc] { add(cl_ev[i], 'D'); cl_run(i, s_disc); g.touch(); });
+    if (which < 0 || which == 2) cl[i]->setReceiveCallback([i, g, s_recv](Buffer &b) { add(cl_ev[i], 'R', b.readableBegin(), b.readableSize()); b.hasReadAll(); cl_run(i, s_recv); g.touch(); }, 0);
+    if (which < 0 || which == 3) cl[i]->setSendCompleteCallback([i, g, s_sc] { add(cl_ev[i], 'S'); cl_run(i, s_sc); g.touch(); });
 }
 static void kn_install() {
     Guard g;
@@ -913,6 +936,21 @@ static bool parse_script(const std::string &w, const std::string &allowed, NScri
     }
     return out.size() <= 3;
 }
+// "-" (empty) or up to four decimal numbers 0 … INT_MAX separated by commas
+static bool parse_delays(const std::string &w, std::vector<int> &out) {
+    out.clear();
+    if (w == "-") return true;
+    size_t pos = 0;
+    for (;;) {
+        size_t c = w.find(',', pos);
+        uint64_t v = 0;
+        if (!vh::to_u64(w.substr(pos, c == std::string::npos ? std::string::npos : c - pos), v) || v > 2147483647ull) return false;
+        out.push_back((int)v);
+        if (c == std::string::npos) break;
+        pos = c + 1;
+    }
+    return out.size() <= 4;
+}
 static void report(int ret) {
     drain();
     if (g_livelock) { std::cout << "P livelock\n"; return; }
@@ -925,7 +963,9 @@ static void report(int ret) {
             cur.push_back(e);
         }
         if (!cur.empty()) g += (g.empty() ? "" : "|") + show(cur);
-        std::cout << " C" << i << ":" << (int)cl[i]->state() << "=" << (g.empty() ? "-" : g);
+        std::cout << " C" << i << ":" << (int)cl[i]->state();
+        if (Buffer *rb = cl[i]->getReceiveBuffer()) std::cout << "b" << rb->readableSize();       // null unless there is a connection
+        std::cout << "=" << (g.empty() ? "-" : g);
     }
     std::cout << " K" << (int)kn->state() << "=" << show_kn(kn_ev);
     std::cout << " raw=" << digest((const uint8_t *)raw_got.data(), raw_got.size()) << (raw_eof ? "|eof" : "") << "\n";
@@ -937,7 +977,7 @@ static bool op(const std::vector<std::string> &w) {
     if (g_livelock) { std::cout << "P livelock\n"; return true; }     // nothing more is compared in this case
     const std::string &o = w[0];
     SockAddr addr{DomainSockPath(g_path)};
-    uint64_t k = 0, n = 0; std::vector<uint8_t> d; NScript sc; int ret = 1;
+    uint64_t k = 0, n = 0; std::vector<uint8_t> d; NScript sc; int ret = 1; std::vector<int> dl;
     auto cidx = [&](size_t pos) { return w.size() > pos && vh::to_u64(w[pos], k) && k < 2; };
     if (o == "nsinit" && w.size() == 1) { if (sv->state() == TcpServer::State::kNone) sv_install(); ret = sv->initialize(addr, 8); }
     else if (o == "nsstart" && w.size() == 1) ret = sv->start();
@@ -968,11 +1008,25 @@ static bool op(const std::vector<std::string> &w) {
     else if (o == "nccb" && w.size() == 4 && cidx(1) && (w[2] == "conn" || w[2] == "disc" || w[2] == "recv" || w[2] == "sc")
              && parse_script(w[3], (w[2] == "conn" || w[2] == "disc") ? "ptschm" : "ptchm", sc)) {
         if (w[2] == "conn") cl_conn[k] = sc; else if (w[2] == "disc") cl_disc[k] = sc; else if (w[2] == "recv") cl_recv[k] = sc; else cl_sc[k] = sc;
+        cl_install((int)k, w[2] == "conn" ? 0 : w[2] == "disc" ? 1 : w[2] == "recv" ? 2 : 3);      // the TcpClient setter, in whatever state the client is
     }
     else if (o == "nkinit" && w.size() == 2 && vh::to_u64(w[1], n) && n <= 5) { kn->initialize(addr); kn_install(); kn->setTryTimes((int)n); }
     else if (o == "nkstart" && w.size() == 1) ret = kn->start();
     else if (o == "nkstop" && w.size() == 1) kn->stop();
     else if (o == "nkcleanup" && w.size() == 1) kn->cleanup();
+    else if (o == "nkdelay" && w.size() == 2 && parse_delays(w[1], dl)) {
+        // setReconnectDelayCalcFunc: seconds after the k-th failure from the table, 1 beyond it
+        kn->setReconnectDelayCalcFunc([dl](int k) { return (k >= 1 && (size_t)(k - 1) < dl.size()) ? dl[k - 1] : 1; });
+    }
+    else if (o == "nkdelayact" && w.size() == 4 && parse_delays(w[1], dl) && vh::to_u64(w[2], n) && n >= 1 && n <= 5 && (w[3] == "stop" || w[3] == "cleanup")) {
+        // … a delay function that calls stop() / cleanup() of its own connector when it is asked about the n-th failure
+        bool cleanup = w[3] == "cleanup"; int at = (int)n; Guard g;
+        kn->setReconnectDelayCalcFunc([dl, at, cleanup, g](int k) {
+            int r = (k >= 1 && (size_t)(k - 1) < dl.size()) ? dl[k - 1] : 1;
+            if (k == at) { if (cleanup) kn->cleanup(); else kn->stop(); }
+            g.touch();
+            return r; });
+    }
     else if (o == "nkcb" && w.size() == 3 && (w[1] == "fail" || w[1] == "conn") && parse_script(w[2], "pc", sc)) {
         if (w[1] == "fail") kn_fail = sc; else if (w[1] == "conn") kn_conn = sc; else return false;
     }
